@@ -261,6 +261,24 @@ func (c *c12Run) fakeSend(fd int, m string, own *c12Owned) error {
 		return blockWriteFull(fd, h)
 	}
 	switch f[0] {
+	case "part":
+		// only the first k bytes of an event header arrive; the rest never does
+		h := header(make([]byte, headerSize))
+		h.encode(headerSize, 3, typeExchangeProtoVersion)
+		k := vAtoi(f[1])
+		if k < 1 || k >= headerSize {
+			return fmt.Errorf("bad message %q", m)
+		}
+		return blockWriteFull(fd, h[:k])
+	case "partb":
+		// the header of a metadata message arrives, its body only in part
+		tmp := &Session{communicationVersion: 3, queueManager: &queueManager{path: c.prefix + "_q"}, bufferManager: &bufferManager{path: c.prefix + "_b"}}
+		data := tmp.generateShmMetadata(typeShareMemoryByFilePath)
+		k := vAtoi(f[1])
+		if k < 0 || headerSize+k >= len(data) {
+			return fmt.Errorf("bad message %q", m)
+		}
+		return blockWriteFull(fd, data[:headerSize+k])
 	case "exver":
 		return hdr(vAtoi(f[1]), typeExchangeProtoVersion)
 	case "ackfd":
@@ -393,8 +411,23 @@ func (c *c12Run) scenario(f []string) string {
 	return out
 }
 
+// a truncated metadata body is only meaningful where the server is about to read a metadata message (after the version exchange)
+func c12BadPart(f []string) bool {
+	for i, w := range f {
+		if strings.HasPrefix(w, "partb:") && !(f[0] == "srv" && i == 3 && f[2] == "exver:3") {
+			return true
+		}
+		if strings.HasPrefix(w, "part") && f[0] == "srv" && f[1] == "deaf" {
+			return true
+		}
+	}
+	return false
+}
+
 func (c *c12Run) run(f []string) string {
 	switch {
+	case c12BadPart(f):
+		return "bad-op"
 	case len(f) == 2 && f[0] == "pair" && (f[1] == "file" || f[1] == "memfd"):
 		mt := MemMapTypeDevShmFile
 		if f[1] == "memfd" {
@@ -455,6 +488,7 @@ func (c *c12Run) run(f []string) string {
 		conn.Close()
 		c.tags["client-queue-exists"] = true
 		return "c=init-error sent="
+
 	case len(f) >= 2 && f[0] == "srv" && (f[1] == "eof" || f[1] == "silent" || f[1] == "deaf"):
 		c.base, c.gor = c12CountFds(), runtime.NumGoroutine()
 		conn, raw, err := c12SocketPair()
@@ -665,6 +699,19 @@ func c12Gen(r *rand.Rand, tier string, idx int) []string {
 	}
 	if r.Intn(12) == 0 {
 		return []string{"srv " + tail() + " exver:3 mmemfdx:3 fds:2"}
+	}
+	if r.Intn(9) == 0 {
+		// a message that arrives only in part (then the peer stalls or closes): the reader must still end with the tail's outcome
+		pre := [][]string{{}, {"exver:3"}, {"exver:3", "mmemfd:3"}}[r.Intn(3)]
+		cut := fmt.Sprintf("part:%d", 1+r.Intn(7))
+		if r.Intn(2) == 0 {
+			pre, cut = []string{"exver:3"}, fmt.Sprintf("partb:%d", r.Intn(6))
+		}
+		if r.Intn(3) == 0 {
+			spre := [][]string{{}, {"exver:3"}, {"exver:3", "ackfd"}}[r.Intn(3)]
+			return []string{strings.TrimSpace("cli memfd " + tail() + " " + strings.Join(append(spre, fmt.Sprintf("part:%d", 1+r.Intn(7))), " "))}
+		}
+		return []string{strings.TrimSpace("srv " + tail() + " " + strings.Join(append(pre, cut), " "))}
 	}
 	if r.Intn(10) == 0 {
 		// the client hands over its memory and stops receiving (dies) before the server's acknowledgement
